@@ -110,7 +110,8 @@ class XPost(X.Post):
                 [self.cost[0], self.cvirt] + self.cost[1].sx() if self.cost else '-',
                 self.lot.sx() if self.lot else '-',
                 {'': 'U', '*': 'C', '!': 'P'}[self.mark],
-                self.assigned.sx() if self.assigned else '-']
+                self.assigned.sx() if self.assigned else '-',
+                self.amt is None and self.computed is not None]
 
 
 class XXact:
@@ -221,24 +222,49 @@ def two_post(rng, st):
     return XXact(ps)
 
 
-def gen_assign(rng, st):
-    """balance assignment / assertion on a dedicated account whose running total is tracked"""
-    acct = rng.choice(['Assets:Asg1', 'Assets:Asg2'])
+def gen_assign(rng, st, acct=None):
+    """balance assignment / assertion on a dedicated account whose running total is tracked; the total may carry a
+    residue below the display precision (gen_residue): the computed amount is then printed rounded"""
+    acct = acct or rng.choice(['Assets:Asg1', 'Assets:Asg2'])
     prev = st['asg'].get(acct, F(0))
-    if rng.random() < 0.6:
-        target = prev + F(rng.randrange(1, 99999) * rng.choice([1, -1]), 100)
-        p = XPost(acct, 'R', None, assigned=X.Amt(target, 2, '$'), computed=X.Amt(target - prev, 2, '$'))
+    pdec = st.setdefault('asgdec', {}).get(acct, 2)
+    base = F(round(prev * 100), 100)                          # targets are written with two decimals
+    if rng.random() < 0.6 or pdec > 2:
+        target = base + F(rng.randrange(1, 99999) * rng.choice([1, -1]), 100)
+        p = XPost(acct, 'R', None, assigned=X.Amt(target, 2, '$'), computed=X.Amt(target - prev, max(2, pdec), '$'))
         st['asg_next'] = (acct, target)
+        st['asgdec_next'] = 2 if target - prev == F(round((target - prev) * 100), 100) else pdec
     else:
         d = F(rng.randrange(1, 9999) * rng.choice([1, -1]), 100)
         p = XPost(acct, 'R', X.Amt(d, 2, '$'), assigned=X.Amt(prev + d, 2, '$'))
         st['asg_next'] = (acct, prev + d)
-    other = XPost(rng.choice(X.ACCTS), 'R', None) if rng.random() < 0.7 else \
+        st['asgdec_next'] = pdec
+    other = XPost(rng.choice(X.ACCTS), 'R', None) if (rng.random() < 0.7 or pdec > 2) else \
         XPost(rng.choice(X.ACCTS), 'R', X.Amt(-(p.model_amt().value), 2, '$'))
     ps = [p, other]
     if rng.random() < 0.3:
         ps.reverse()
     return XXact(ps)
+
+
+def gen_residue(rng, st):
+    """a purchase at a per-unit price with 3 or 4 decimals whose cash leg is elided on an assignment account: the
+    account's running total then carries digits below the two decimals `$` is displayed with"""
+    acct = rng.choice(['Assets:Asg1', 'Assets:Asg2'])
+    prev = st['asg'].get(acct, F(0))
+    units = rng.choice([1, 3, 3, 5, 7, 15, 25, rng.randrange(1, 60)]) * rng.choice([1, 1, -1])
+    dec = rng.choice([3, 3, 4])
+    price = F(rng.randrange(10 ** (dec - 1), 10 ** (dec + 2)), 10 ** dec)
+    p = XPost('Assets:Broker:X', 'R', X.Amt(F(units), 0, rng.choice(['AAA', 'CCC'])), ('u', X.Amt(price, dec, '$')))
+    st['asg_next'] = (acct, prev - units * price)
+    st['asgdec_next'] = max(st.setdefault('asgdec', {}).get(acct, 2), dec)
+    st['follow_up'] = acct                       # an assignment on this account soon after
+    ps = [p, XPost(acct, 'R', None)]
+    if rng.random() < 0.3:
+        ps.reverse()
+    x = XXact(ps)
+    x.keep_cost_marks = True
+    return x
 
 
 def gen_zero_cost(rng, st):
@@ -421,8 +447,10 @@ def gen_xact(rng, st):
         x = upgrade(X.gen_lot(rng))
     elif r < 0.86:
         x = gen_lot_cost(rng, st)
-    elif r < 0.935:
+    elif r < 0.89:
         x = gen_assign(rng, st)
+    elif r < 0.935:
+        x = gen_residue(rng, st)
     elif r < 0.94:
         x = gen_zero_cost(rng, st)
     else:
@@ -460,7 +488,10 @@ def gen_journal(rng):
         xs.root = rng.choice([None, None, 'Root', 'Personal:Y 2021'])
     for _ in range(rng.randrange(3, 11)):
         st.pop('asg_next', None)
-        x = gen_single(rng, st) if (xs.bucket and rng.random() < 0.35) else gen_xact(rng, st)
+        if st.get('follow_up') and rng.random() < 0.6:
+            x = decorate(rng, gen_assign(rng, st, st.pop('follow_up')))
+        else:
+            x = gen_single(rng, st) if (xs.bucket and rng.random() < 0.35) else gen_xact(rng, st)
         x.bucket = xs.bucket
         for p in x.posts:
             p.root = xs.root
@@ -468,6 +499,7 @@ def gen_journal(rng):
         if 'asg_next' in st:
             x.asg = st['asg_next']
             st['asg'][x.asg[0]] = x.asg[1]
+            st.setdefault('asgdec', {})[x.asg[0]] = st.pop('asgdec_next', 2)
     return xs
 
 
@@ -681,6 +713,24 @@ def zero_amount_style_lost(xs, t1, t2):
     lost = zero - taught
     l1, l2 = t1.split('\n'), t2.split('\n')
     return bool(lost) and len(l1) == len(l2) and all(a == b or any(c in a for c in lost) for a, b in zip(l1, l2))
+
+
+def residue_assignments(xs):
+    """how many balance assignments / assertions follow, on one account, a posting that left a residue below the display
+    precision there (an elided leg of a per-unit cost with more decimals): each printed assignment rounds once more"""
+    best = 0
+    for acct in set(p.acct for x in xs for p in x.posts if p.assigned is not None):
+        seen, n = False, 0
+        for x in xs:
+            for p in x.posts:
+                if p.acct != acct:
+                    continue
+                if p.assigned is not None and seen:
+                    n += 1
+                elif p.amt is None and p.assigned is None and any(q.cost and q.cost[1].dec > X.COMMS[q.cost[1].sym][1] for q in x.posts):
+                    seen = True
+        best = max(best, n)
+    return best
 
 
 def differs_by_padding_only(t1, t2):
@@ -985,15 +1035,23 @@ def run_one(ctx, res, j, xs, text, path, out_reg, model, layout_cases, idem_case
                 idem_cases.append((text, P2 == P, mod_same, pad_lines, [(i, mm.get((i, 'I'))) for i in range(len(xs))]))
     # ---- oracle 1: the rows of J equal the rows of the re-read print
     nontrivial = False
+    jpool = {}                                   # display precision per commodity: the most decimals written in a posting amount
+    for x in xs:
+        for p in x.posts:
+            for a in (p.amt, p.assigned):
+                if a is not None and a.sym:
+                    jpool[a.sym] = max(jpool.get(a.sym, 0), a.dec)
     if not reread_ok:
         virt_pair = any(len(x.posts) == 2 and all(p.kind == 'V' and p.amt is not None for p in x.posts) for x in xs)
         msg = err2.decode('utf-8', 'replace')
         cls = 'NullLeft' if 'There cannot be null amounts after balancing' in msg else \
-            'Unbalanced' if 'does not balance' in msg else 'TwoNulls' if 'Only one posting with null amount' in msg else 'Other'
+            'Unbalanced' if 'does not balance' in msg else 'TwoNulls' if 'Only one posting with null amount' in msg else \
+            'AssertOff' if 'Balance assertion off by' in msg else 'Other'
         inexact = any(p.cost and p.cost[0] == 'u' and p.cost[1].dec > X.COMMS[p.cost[1].sym][1] for x in xs for p in x.posts)
         res.violations.append(dict(
             key='reread-fails:' + cls + (':virtual-pair-elided' if (virt_pair and cls == 'NullLeft') else '') +
-                (':display-zero-residual-under-grown-precision' if (inexact and cls == 'Unbalanced') else ''),
+                (':display-zero-residual-under-grown-precision' if (inexact and cls == 'Unbalanced') else '') +
+                (':accumulated-assignment-residues' if (cls == 'AssertOff' and residue_assignments(xs) >= 2) else ''),
             desc='the text printed for an accepted journal is not accepted: %s' % msg[-300:],
             case=dict(journal=text, printed=Ptext), observed=msg[-300:], required='accepted'))
         res.count('reread-fails:' + cls)
@@ -1016,8 +1074,11 @@ def run_one(ctx, res, j, xs, text, path, out_reg, model, layout_cases, idem_case
                     va, vb = ra[fld], rb[fld]
                     if (va and va[:2]) != (vb and vb[:2]):
                         # an amount computed from a balance assignment need only agree to display precision
-                        asg = any(p.assigned is not None and p.amt is None and p.full() == ra['acct'] for p in x.posts)
-                        if asg and va and vb and va[0] == vb[0] and abs(va[1] - vb[1]) * 2 <= F(1, 10 ** X.COMMS.get(va[0], ('', 2))[1]):
+                        # (so does the elided leg that balances it in the same transaction)
+                        has_asg = any(p.assigned is not None and p.amt is None for p in x.posts)
+                        asg = has_asg and any((p.amt is None) and p.full() == ra['acct'] for p in x.posts)
+                        if asg and va and vb and va[0] == vb[0] and abs(va[1] - vb[1]) * 2 <= F(1, 10 ** jpool.get(va[0], 0)):
+                            res.count('assigned-amount-to-display-precision')
                             continue
                         res.violations.append(dict(key=classify_row_diff('amt', va, vb) if fld == 'amt' else
                                                    ('reread-rows:zero-amount-commodity-lost' if (va and vb and va[1] == 0 and vb[1] == 0) else
